@@ -74,8 +74,11 @@ pub fn run(ctx: &Ctx, rep: &mut Reporter) {
     if !ctx.slow() && ctx.shard < 4 && (ctx.only_case.is_none() || ctx.only_case == Some(HUGE_CASE)) {
         huge_case(ctx, rep);
     }
+    if ctx.only_case.is_none() || ctx.only_case == Some(SWEEP_CASE) {
+        size_sweep(ctx, rep, "pipeline");
+    }
     for case_idx in ctx.case_range() {
-        if case_idx == HUGE_CASE {
+        if case_idx == HUGE_CASE || case_idx == SWEEP_CASE {
             continue;
         }
         let mut rng = ctx_rng(ctx, case_idx);
